@@ -35,6 +35,8 @@ ASSIGNMENTS_QUICK = [
     "a(i) = (b(i) + c(i)) * (d(i) + e(i))",
     "a(i) = b(i) - (c(i) - d(i))",
     "a(i) = 2 * b(i)",
+    "a() = B(i,j) + c()",  # a tensor with two private summed indexes inside a sum
+    "a(i) = B(i,j,k) + c(i)",
     "a(i) = b(i) + d(i) * (e(i) + f(i) + g(i))",  # five operands: exhausting one factor removes several operands at once
     "a(i) = (b(i) + c(i)) * (d(i) + e(i) + f(i))",
     "a(i) = b(i) * c(i) + d(i) * e(i) + f(i)",
